@@ -208,7 +208,7 @@ func solveOne(o *Obligation, cfg SolveCfg, w int) {
 	// stage B: race the back ends on the full query; the first definite answer wins
 	type ans struct {
 		res, out, name string
-		el            float64
+		el             float64
 	}
 	ctx, cancel := context.WithCancel(context.Background())
 	defer cancel()
